@@ -19,6 +19,8 @@ CONSTANTS
   WLens <- NoLens
   FrameOK <- FrameAny
   WriteFailures = FALSE
+  FlushPolicy = "flush"
+  MaxBlock = 0
   KeepHist = FALSE
   MaxQueued <- Many
   Truncation = TRUE
